@@ -9,4 +9,5 @@ pub fn run(ctx: &mut Ctx) {
     drive(ctx, Prop::C09, "hist-short", n, Mix { error_sixteenths: 0, max_steps: 3, big_start: false, near_limit: 0, want: Prop::C09 });
     let n = ctx.scaled(if ctx.tier == "thorough" { 400_000 } else { 40_000 });
     drive_header_alias(ctx, Prop::C09, n);
+    drive_rdata_alias(ctx, Prop::C09, ctx.scaled(2_000));
 }
